@@ -1493,6 +1493,13 @@ func walkerFamily(repo, which string) (string, error) {
 		fmt.Fprintf(&sb, "Definition gen_walk_gate : string := %q%%string.\nDefinition gen_comment_gate : string := %q%%string.\n", t.walkGate, t.commentGate)
 		fmt.Fprintf(&sb, "Definition gen_load_counts_each_rule : bool := %v.\nDefinition gen_merge_starts_empty : bool := %v.\n", t.placeAppend, t.mergeStartsEmpty)
 		fmt.Fprintf(&sb, "Definition gen_engine_load_first_direct_then_merge_after : bool := %v.\nDefinition gen_loadfile_merges_own_then_imported : bool := %v.\n", t.engineLoadOK, t.loadFileMergeOK)
+		for _, part := range []func(string) (string, error){wkPatternEnv, wkMatcherStateFlow} {
+			txt, err := part(repo)
+			if err != nil {
+				return "", err
+			}
+			sb.WriteString(txt)
+		}
 	}
 	return sb.String(), nil
 }
